@@ -26,6 +26,12 @@ CLAIMED = {
  "C10": dict(level="exploration", technique="property-based testing (rapid): model-based history check (occurrence counting over the game) + three-valued material oracle",
    text="Shuffle-biased generated game histories: after every ply CheckRepetitions(1|2|3) must equal (count of earlier same-signature positions >= n) and HalfMoveClock the reference clock; insufficient material is checked on generated material configurations (from FEN and reached by captures) in both directions for the classes the property names, unconstrained elsewhere.",
    note="Signature = placement, side, castling rights, ep field exactly as the property states; history starts at the given FEN.", ref="DESIGN.md §2 C10"),
+ "C08": dict(level="exploration", technique="property-based testing (rapid), stateful: generated visit histories on one reused move generator; differential oracles (fresh batch generator, refchess pseudo-legal/legal sets)",
+   text="One reused Movegen is driven through generated histories of visits (positions incl. >=30% in check, PV move from every stage class, member and foreign killers, history/counter-move tables with drawn and huge counters, reset or not, all three modes, batch or phased, full or abandoned iteration, UsePromNonQuiet both ways). Per visit the delivered multiset must equal the fresh batch list of the mode (no duplicates, nothing missing or extra), the phased generator must deliver a PV move of the set first, non-quiet + quiet must partition all, evasion output must be pseudo-legal, duplicate-free and omit only illegal moves, HasLegalMove must equal (legal list non-empty).",
+   note="Generator discipline follows the real callers (reset before revisiting a position and whenever a PV is/was set; evasion flag = in check; batch calls between phased iterations). PV-first is checked for the phased generator only, as stated.", ref="DESIGN.md §2 C08"),
+ "C11": dict(level="exploration", technique="property-based testing (rapid), stateful model-based: generated Put/Probe/GetEntry/AgeEntries/Clear/Resize histories against a reference slot model",
+   text="Generated operation histories with keys constructed to collide in the index bits are run against the table and a small reference model; every lookup must return nothing or exactly the most recent entry written for that key (move, value over the whole storable range, depth, type), a colliding store may replace only if deeper or equally deep and aged, Len/Hashfull must equal the model's occupancy for the specified power-of-two capacity, and no operation may panic for any size 0-64 MB (512 MB in thorough).",
+   note="Key 0 excluded (empty-slot sentinel). The statement allows a miss at any time; 'store into an empty slot or over the same key is retrievable immediately' is the one presence requirement added. One listed known finding (value of move-less entries) is tolerated inline and counted.", ref="DESIGN.md §2 C11"),
 }
 
 NOT_YET = "check not built yet in this session (work in progress; see DESIGN.md)"
